@@ -83,6 +83,11 @@ def batch_marking(chk, f):
         holder = [s for s in walk_no_nested(f.node) if isinstance(s, ast.Assign) and s.value is comp]
         dedup = [s for s in walk_no_nested(f.node) if isinstance(s, ast.Assign) and isinstance(s.value, ast.Call) and any(x is comp for x in ast.walk(s.value))
                  and (call_name(s.value) or "") in ("set", "dict.fromkeys", "frozenset")]
+        if holder and isinstance(holder[0].targets[0], ast.Name):
+            hn = holder[0].targets[0].id
+            # ... or the batch is made duplicate-free before it is marked and handed out: `shell = list(dict.fromkeys(shell))`
+            dedup += [s for s in walk_no_nested(f.node) if isinstance(s, ast.Assign) and isinstance(s.value, ast.Call) and any(
+                isinstance(c, ast.Call) and (call_name(c) or "") in ("set", "dict.fromkeys", "frozenset") and c.args and norm(c.args[0]) == hn for c in ast.walk(s.value))]
         if isinstance(comp, ast.ListComp) and holder and not marks_inside and not dedup:
             chk.fail("C15.R2", f"{f.key}:visit-once", f.where(comp),
                      f"`{short(tests[0], 40)}` is evaluated for a whole batch inside a list comprehension and the batch is marked only afterwards: an atom that is a neighbour of two "
@@ -244,6 +249,18 @@ def _indexed_by_pattern(gs):
     ok = False
     gy = [e for e in walk_no_nested(gs.node) if isinstance(e, ast.Yield)]
     gl = [l for l in walk_no_nested(gs.node) if isinstance(l, ast.For) and gy and any(x is gy[0] for x in ast.walk(l))]
+    if len(gy) == 1 and len(gl) == 1 and isinstance(gl[0].target, ast.Name) and isinstance(gy[0].value, ast.Call) and call_name(gy[0].value) in ("list", "tuple") \
+            and len(gy[0].value.args) == 1 and isinstance(gy[0].value.args[0], ast.Call) and norm(gy[0].value.args[0].func) == "self.get_atom_indices":
+        # list(self.get_atom_indices(*(M[x] for x in pattern.atoms))): the index of the image of every pattern atom, in pattern order
+        c = gy[0].value.args[0]
+        mvar = gl[0].target.id
+        it = genv.expand(gl[0].iter)
+        if len(c.args) == 1 and isinstance(c.args[0], ast.Starred) and isinstance(c.args[0].value, (ast.GeneratorExp, ast.ListComp)) and len(c.args[0].value.generators) == 1:
+            ge = c.args[0].value
+            g0 = ge.generators[0]
+            ok = isinstance(g0.target, ast.Name) and norm(g0.iter) == f"{pp}.atoms" and not g0.ifs and norm(ge.elt) == f"{mvar}[{g0.target.id}]" \
+                and isinstance(it, ast.Call) and norm(it.func) == "self.match" and bool(it.args) and norm(it.args[0]) == pp
+        return ok
     if len(gy) == 1 and len(gl) == 1 and isinstance(gy[0].value, ast.ListComp) and len(gy[0].value.generators) == 1 and isinstance(gl[0].target, ast.Name):
         lc = gy[0].value
         g0 = lc.generators[0]
